@@ -351,7 +351,7 @@ def run_contain(spec, ctx):
             br = dr.Broker()
             br[cls] = ectx
             providers = []
-            case = {"mode": "contain", "layout": dict((k, spec[k]) for k in ("root_name", "siblings", "links")), "probe": pr}
+            case = dict(spec, probes=[pr])          # replayable: the whole layout with this one probe
             nt = (".." in path) or any(path.startswith(l[0]) or ("/" + l[0]) in ("/" + path) for l in spec["links"]) or "*" in path
             with audit.record() as events:
                 try:
